@@ -330,6 +330,9 @@ def run(chk):
     from . import rules_C12, rules_C13, report
 
     report.include_rules(chk, r5, rules_C12, ("C12.R1", "C12.R2"), "the routed client is the hasher's answer for this call and the key passed on is this call's own key")
+    from . import rules_C11
+
+    report.include_rules(chk, r5, rules_C11, ("C11.R2", "C11.R3"), "the router accepts every key Client accepts and answers from the key alone (it hashes '<node>-<key>' as given, str or bytes, and takes the argmax): it cannot fail or misroute for keys a plain Client serves")
     report.include_rules(chk, r5, rules_C12, ("C12.R3", "C12.R4"), "the multi-key operations hand every key to the server's client through its own multi-key method and return what it answered (no special-cased path that interprets values itself)")
     report.include_rules(chk, r5, rules_C13, ("C13.R1",), "a server that answered (or failed with something other than an OSError) is not marked as failing, so later calls are still sent to it like a plain Client would")
     chk.assume("the inner object of the wrappers is a Client (client_class); user-supplied client classes are outside the property")
